@@ -138,6 +138,14 @@ def okB {ε α : Type} : Except ε α → Bool
   | .ok _ => true
   | .error _ => false
 
+/-- "accepted": `validate_payload` returns `Ok` and the time normaliser returns `Ok`. -/
+abbrev accepts (lib : TimeLib) (schema : Schema) (payload : Json) : Prop :=
+  okB (admit lib schema payload) = true
+
+/-- States whose registry holds only schemas of the shapes DEFINE produces. -/
+def Definable (st : St) : Prop :=
+  ∀ et schema, st.schemas.lookup et = some schema → SchemaNoDeepTime schema
+
 theorem normInt_inI64 {n s : Int} (h : normalizeIntegerEpoch n = some s) : inI64 s = true := by
   unfold normalizeIntegerEpoch at h
   split at h
